@@ -164,7 +164,12 @@ def run_case(spec):
                     est = ml.SCML(**kw)
                     with Spy() as spy, warnings.catch_warnings(record=True) as wr:
                         warnings.simplefilter('always')
-                        est.fit(T)
+                        try:
+                            est.fit(T)
+                        except Exception as e:
+                            viol.append(V('SCML.fit', 'raises', 'fit on %s triplets with an array basis raised %s: %s'
+                                          % (lab, type(e).__name__, str(e)[:100]), [lab]))
+                            continue
                     basis, w = spy.calls[-1]
                     draws = np.random.RandomState(seed).randint(0, len(T), size=(mi, bs))
                     if not np.array_equal(basis, B):
@@ -177,7 +182,7 @@ def run_case(spec):
                     trans += 1
                     if nt:
                         sigs.add(('intpts', lab, mi, seed))
-                if np.abs(res['float64'] - res['int64']).max() > 1e-9 * max(np.abs(res['float64']).max(), 1e-300):
+                if len(res) == 2 and np.abs(res['float64'] - res['int64']).max() > 1e-9 * max(np.abs(res['float64']).max(), 1e-300):
                     viol.append(V('SCML.fit', 'int_points_differ', 'integer-typed and float-typed copies of the same triplets give different metrics', ['int_points']))
         return dict(evals=evals, sigs=sigs, viol=viol, states=states, transitions=trans, ambiguous=amb,
                     sample={'kind': 'integer-typed points with a real-valued basis', 'dataset': ds.name})
